@@ -121,4 +121,90 @@ class DetectWhereSorted(Unit):
         yield 'every_right_element_handed_out_exactly_once', G(vc, '$right_emitted') == o.nR
 
 
-UNITS = [DetectWhereSorted()]
+# ----------------------------------------------------------------------------- yield_first_element
+ROW_FIRST = z3.Function('row_first', z3.IntSort(), z3.IntSort())
+ROW_SECOND = z3.Function('row_second', z3.IntSort(), z3.IntSort())
+
+
+def yfe_inv(vc, L):
+    yield 'handed_out_one_item_per_row_so_far', G(vc, '$count') == SInt.of(L.i)
+
+
+def yfe_havoc(vc, L):
+    vc.ghost['$count'] = SInt.fresh('count')
+
+
+class YieldFirstElement(Unit):
+    """utils.yield_first_element on its body: the k-th item is the first component of the k-th row, one item per row."""
+    fn = 'utils:yield_first_element'
+    mode = 'body'
+    props = ('C16',)
+    allowed_exc = ()
+    verify_only = True
+    loops = {0: Loop(0, yfe_inv, havoc=yfe_havoc)}
+
+    def make(self, vc, I):
+        n = SInt.fresh('nrows')
+        vc.assume(n >= 0)
+        rows = EM.AbsSeq(n, lambda i: (SInt(ROW_FIRST(SInt.of(i).t)), SInt(ROW_SECOND(SInt.of(i).t))), 'rows')
+        return NS(iterator=rows, n=n)
+
+    def snapshot(self, vc, a):
+        vc.ghost['$count'] = SInt.of(0)
+        return NS(n=a.n)
+
+    def on_yield(self, vc, a, o, item):
+        k = G(vc, '$count')
+        yield 'item_is_the_first_component_of_the_next_row', b_and(k < o.n, SInt.of(item) == SInt(ROW_FIRST(k.t)))
+        vc.ghost['$count'] = k + 1
+
+    def post(self, vc, a, o, ret):
+        yield 'one_item_per_row', G(vc, '$count') == o.n
+
+
+# ----------------------------------------------------------------------------- merge_sorted
+W_ITEM = z3.Function('dws_item', z3.IntSort(), z3.IntSort())
+
+
+class DwsAsSequence(Unit):
+    """Callee summary used only by the merge_sorted unit below: the items detect_where_sorted hands out, as an abstract
+    finite sequence of (item, location) pairs (what the sequence contains is the subject of DetectWhereSorted above)."""
+    fn = 'utils:detect_where_sorted'
+    props = ('C16',)
+    trusted = True
+    note = 'the generator seen as the finite sequence of its items; its content is proved by utils:detect_where_sorted@body'
+
+    def havoc(self, vc, I, a):
+        m = SInt.fresh('nitems')
+        vc.assume(m >= 0)
+        vc.ghost['$m'] = m
+        loc = I.prog.classes['utils:Location'].attrs['BOTH']
+        return EM.AbsSeq(m, lambda i: (SInt(W_ITEM(SInt.of(i).t)), loc), 'classified')
+
+
+class MergeSorted(Unit):
+    """utils.merge_sorted on its body: hands out exactly the items of detect_where_sorted, in the same order, one each."""
+    fn = 'utils:merge_sorted'
+    mode = 'body'
+    props = ('C16',)
+    allowed_exc = ()
+    verify_only = True
+    loops = {0: Loop(0, yfe_inv, havoc=yfe_havoc)}
+
+    def make(self, vc, I):
+        return NS(iterator1=EM.AbsSeq(SInt.fresh('n1'), atL, 'left'), iterator2=EM.AbsSeq(SInt.fresh('n2'), atR, 'right'))
+
+    def snapshot(self, vc, a):
+        vc.ghost['$count'] = SInt.of(0)
+        return NS()
+
+    def on_yield(self, vc, a, o, item):
+        k = G(vc, '$count')
+        yield 'item_is_the_next_item_of_detect_where_sorted', b_and(k < G(vc, '$m'), SInt.of(item) == SInt(W_ITEM(k.t)))
+        vc.ghost['$count'] = k + 1
+
+    def post(self, vc, a, o, ret):
+        yield 'one_item_per_classified_element', G(vc, '$count') == G(vc, '$m')
+
+
+UNITS = [DetectWhereSorted(), YieldFirstElement(), DwsAsSequence(), MergeSorted()]
